@@ -226,6 +226,11 @@ def run_case(case):
                 gs[name].draw(pen)
                 base = pen.bounds
                 allb = [geom.bbox(l.contours) for l in got_layers if l.contours]
+                # outlines that collapsed to a line on the integer grid paint nothing and need no extents
+                allb = [b for b in allb if b[2] - b[0] > 1e-6 and b[3] - b[1] > 1e-6]
+                if not allb:
+                    c["v0_glyphs_with_only_degenerate_layers"] = c.get("v0_glyphs_with_only_degenerate_layers", 0) + 1
+                    continue
                 un = (min(b[0] for b in allb), min(b[1] for b in allb), max(b[2] for b in allb), max(b[3] for b in allb))
                 c["v0_base_bounds_checked"] = c.get("v0_base_bounds_checked", 0) + 1
                 smax = max(l.sigma for l in got_layers)
